@@ -63,7 +63,13 @@ def leaves(interp_state, v, depth=0):
     return [v]
 
 
-def evaluate_init(F, adt, trait):
+# state a component deliberately KEEPS when it is already there (documented: shared between instances / phases)
+KEEPS = {("mahf::components::swarm::pso::GlobalBestParticleUpdate", "mahf::components::swarm::pso::BestParticle<P, I>")}
+
+
+def evaluate_init(F, adt, trait, present=False):
+    """present=False: a state that does not hold the types yet; present=True: a USED state that already holds them (a
+    configuration run again on the state of an earlier run, a component initialised a second time)"""
     fn = F.method(adt, "init", trait)
     a = F.adt(adt)
     fields = {x["name"]: x["i"] for x in a["variants"][0]["fields"]}
@@ -80,8 +86,16 @@ def evaluate_init(F, adt, trait):
         if k == "mahf::state::registry::StateRegistry::entry":
             return Sym("entry:" + str(ty))
         if k in ("mahf::state::registry::StateRegistry::contains", "mahf::state::registry::StateRegistry::has", "mahf::state::registry::StateRegistry::contains_at_top"):
-            return False          # the scenario is a state that does not hold the type yet: what init installs then
+            return present
         a0 = load(interp, env, args[0]) if args else None
+        if k == "mahf::state::registry::StateRegistry::set_value" and present:
+            seen.append((ty, leaves(interp.mstate, load(interp, env, args[1]))))
+            return some(Sym("old-value"))
+        if k.startswith("mahf::state::registry::entry::Entry::") and isinstance(a0, Sym) and a0.tag.startswith("entry:") and present:
+            # an occupied entry: or_insert* keep what is there; and_modify* run the caller's closure on it (not followed: undecided)
+            if nm in ("or_insert", "or_insert_with", "or_default"):
+                return Ref(0, [], frame="root")
+            return TOP
         if k.startswith("mahf::state::registry::entry::Entry::or_") and isinstance(a0, Sym) and a0.tag.startswith("entry:"):
             # the vacant case: what would be inserted
             if nm == "or_insert":
@@ -139,6 +153,25 @@ def check_for(ctx, prop):
                     break
         n += 1
         ctx.check(good, prop + ".INIT", fn.key, "init-installs-configured-state", why or "ok", detail=str(sorted(got)), loc=fn.loc())
+        # initialising again on a USED state resets every listed state to its configured / empty value (a second run starts like
+        # the first), except state the component documents as kept
+        fn2, paths2, seen2 = evaluate_init(F, adt, trait, present=True)
+        good2 = len(paths2) == 1 and paths2[0].end == "return" and isinstance(paths2[0].ret, Agg) and paths2[0].ret.variant == "Ok"
+        why2 = "" if good2 else "init on a used state does not return Ok on a single path (%s)" % [p.end for p in paths2]
+        if good2:
+            got2 = {}
+            for ty, lv in seen2:
+                got2.setdefault(ty, []).append(lv)
+            for ty, exp in want.items():
+                if (adt, ty) in KEEPS:
+                    continue
+                lvs = got2.get(ty, [])
+                exp_l = [Sym("field:" + exp[1])] if exp[0] == "field" else [exp[1]] if exp[0] == "const" else []
+                if lvs != [exp_l]:
+                    good2, why2 = False, "on a state that already holds %s (left by an earlier run / initialisation) init %s; expected it to be reset to %s" % (
+                        ty, "leaves it as it is" if not lvs else "stores %s" % [[str(x) for x in l] for l in lvs], "the configured `%s`" % exp[1] if exp[0] == "field" else "its initial value")
+                    break
+        ctx.check(good2, prop + ".INIT", fn.key, "init-resets-used-state", why2 or "ok", loc=fn.loc())
     ctx.count("init_specs", n)
     ctx.floor(prop + ".INIT", "init specifications", n, len(SPEC.get(prop, [])))
 
